@@ -173,4 +173,4 @@ def prop(case):
     return Obs(separates or (n_clear and n_set and checked_b) or shared, labels, checks=len(rows) * lanes)
 
 
-PARTS = [Part('capture', prop, strategy=cases, quick=(8, 250), thorough=(16, 2500))]
+PARTS = [Part('capture', prop, strategy=cases, quick=(8, 250), thorough=(16, 8000))]
